@@ -581,6 +581,19 @@ func c15FakeRun(c *lib.Ctx, c12only bool) {
 				e.register(lib.Pick(r, a))
 			}
 		case x < 16:
+			if !c12only && r.Intn(3) == 0 {
+				// the in-flight checkpoint of a later failure is sometimes a savepoint a user asked for
+				func() {
+					defer func() { recover() }()
+					if e.job.VerifStatus() != "Running" {
+						return
+					}
+					id, err := e.job.HandleCreateSavepoint(context.Background())
+					e.logf("a savepoint is requested -> id %d, %v", id, err)
+					c.Feat("savepoints_requested", 1)
+				}()
+				break
+			}
 			e.logf("checkpoint tick")
 			tickCk()
 		case x < 18:
